@@ -255,7 +255,8 @@ pub fn build(quick: bool) -> Check {
             Box::new(Pairs { vals, other: None, label: "count-pairs" }),
             Box::new(Pairs { vals: dense, other: Some(few), label: "dense-range-x-few" }),
             Box::new(ZeroCols { counts }),
+            Box::new(super::aftermath::Aftermath { prop: "C14" }),
         ],
-        required: vec!["eight_byte_lenenc", "zero_column_sets"],
+        required: vec!["aftermath_recovered", "eight_byte_lenenc", "zero_column_sets"],
     }
 }
